@@ -13,20 +13,20 @@ TRUST = ('Trusted base: rustc nightly THIR/MIR for this source (same cfgs as the
 
 CHECKS = {
     'C20': {
-        'technique': 'return-value case analysis of MainConfig::new (Ok leaves entail the validation facts), assignment-order check for CLI overrides, census of derive-expanded validator calls, struct-literal/static provenance for Argon2 hash/verify agreement, configuration-field reader census, TLS accept-path delegation in the TLS build configurations',
+        'technique': 'return-value case analysis of MainConfig::new (Ok leaves entail the validation facts), assignment-order check for CLI overrides, census of derive-expanded validator calls, struct-literal/static provenance for Argon2 hash/verify agreement, configuration-field reader census, quota-comparison provenance for max_joins, TLS accept-path delegation in the TLS build configurations',
         'level': ('Decides that a configuration reaches run_server only through MainConfig::new, whose Ok value implies validate() Ok, '
                   'nickname lengths and the certificate/key pair check, with all CLI overrides applied before validation; that the '
                   'generated validators cover name/password/user/operator/channel fields; that hashing and verification share instance, '
                   'salt and parameters; that each CLI option overrides its own field; that each documented setting is read by the code '
-                  'implementing it; and (TLS builds) that TLS only changes the transport.'),
+                  'implementing it (max_joins: compared with the running number of joined channels before every admission); and (TLS builds) that TLS only changes the transport.'),
         'note': TRUST + ' Cryptographic exactness and plain-vs-TLS transcript equality are not decided; serde deserialisation is trusted.',
     },
     'C18': {
-        'technique': 'lock-region analysis over lexical guard live ranges: effect census under write guards, transitive acquires() summary for re-entrancy, query-event/guard matching for check-then-act, await census under guards; type-level compile-fail witness (E0596) with a compiling twin in the thorough tier',
+        'technique': 'lock-region analysis over lexical guard live ranges: effect census under write guards, check-and-insert under one guard and registered-flag typestate for nickname claims, transitive acquires() summary for re-entrancy, query-event/guard matching for check-then-act, await census under guards; type-level compile-fail witness (E0596) with a compiling twin in the thorough tier',
         'level': ('Decides the lock discipline that makes each handler one atomic step: state reachable only through the RwLock, '
                   'every effect under a write guard, no acquisition while a guard is held (deadlock freedom of the single lock), every '
                   'presence fact an effect relies on queried under the same guard, one task per connection / one event per iteration / '
-                  'in-order buffered output / single queue consumer, no I/O await under the lock. Linearizability of arbitrary schedules '
+                  'in-order buffered output / single queue consumer, no I/O await under the lock, and for simultaneous nickname claims that check and insert share one write guard and the loser is not left marked registered. Linearizability of arbitrary schedules '
                   'as such is NOT decided.'),
         'note': TRUST + ' Fairness of tokio\'s RwLock/scheduler and real-time bounds are not decided.',
     },
@@ -39,11 +39,11 @@ CHECKS = {
         'note': TRUST + ' Timing and scheduler fairness are runtime quantities (declined).',
     },
     'C13': {
-        'technique': 'exhaustive error-variant -> reply mapping by path-condition reachability, table agreement (verb literals / CommandId / Command / index / counter array / HELP), validator census per Command field, template decoding of every format string, idiom classification of the trailing-parameter split with a constructive counterexample',
+        'technique': 'offset-coordinate rule for re-sliced pieces of the line, exhaustive error-variant -> reply mapping by path-condition reachability, table agreement (verb literals / CommandId / Command / index / counter array / HELP), validator census per Command field, template decoding of every format string, idiom classification of the trailing-parameter split with a constructive counterexample',
         'level': ('Decides the structural necessary conditions of the parsing/framing property: total pre-execution error mapping '
                   '(421/461/472/501/696/417/ERROR), agreement of all command tables, 461 naming its own verb, validation before '
                   'execution with the right validator per field, CR LF encoder constants and single socket writer, colon-introduced '
-                  'trailing free text in every relay/reply template, the serialiser\'s colon condition, and the delimiter idiom of the '
+                  'trailing free text in every relay/reply template, the serialiser\'s colon condition, the offset arithmetic of the re-sliced prefix, and the delimiter idiom of the '
                   'tokeniser (the pinned tree split at a bare colon; repaired by fix e9ef753).'),
         'note': TRUST + ' The tokeniser\'s agreement with the grammar over ALL strings (blank runs, tabs, multi-byte text) is a runtime-value property and is not decided.',
     },
@@ -57,15 +57,15 @@ CHECKS = {
         'note': TRUST + ' Assumes a sane system clock; detached timer/lookup tasks are observations; resource exhaustion and panics inside dependencies are not decided. Thorough tier repeats the analysis in all four build configurations.',
     },
     'C14': {
-        'technique': 'panic-obligation discharge restricted to the matcher/normaliser, structural loop-progress witnesses, provenance of stored/announced masks, template check of the three normalisation cases, argument-role census of match_wildcard calls',
+        'technique': 'panic-obligation discharge restricted to the matcher/normaliser, structural loop-progress witnesses, comparison-unit (char vs byte) type rule, provenance of stored/announced masks, template check of the three normalisation cases, argument-role census of match_wildcard calls',
         'level': ('Decides the structural necessary conditions only: the comparison cannot abort (violated on the pinned tree; repaired '
-                  'by fix 53e0ac2), its loops make progress, list masks are normalised before store/announce/compare with the three '
+                  'by fix 53e0ac2), its loops make progress, it walks characters rather than bytes, list masks are normalised before store/announce/compare with the three '
                   'documented completions, and every call site passes (mask, text). That the function implements glob semantics for '
                   'every pair of strings is NOT decided by this technique.'),
         'note': TRUST + ' Glob semantics over all strings is a runtime-value property (declined, see DESIGN.md C14).',
     },
     'C19': {
-        'technique': 'coupling analysis: finite enumeration of abstract paths (truth assignments of the atoms in the writers\' path conditions + pre-state flags) comparing counter deltas with the change of the counted predicate; field provenance for LUSERS/ISON/USERHOST; acquire/release pairing for connection slots',
+        'technique': 'caller census of the counting registry functions; coupling analysis: finite enumeration of abstract paths (truth assignments of the atoms in the writers\' path conditions + pre-state flags) comparing counter deltas with the change of the counted predicate; field provenance for LUSERS/ISON/USERHOST; acquire/release pairing for connection slots',
         'level': ('Decides for every abstract path of every writer that operators_count / invisible_users_count / the WALLOPS set '
                   'move exactly with the flags they count (three pinned-tree defects, repaired by fixes 3dcbe6b and 0a7a464), that no other '
                   'function writes them, that max_users_count is the high-water mark, that each LUSERS/ISON/USERHOST field is the '
@@ -74,12 +74,12 @@ CHECKS = {
         'note': TRUST + ' Loop iterations of user MODE are treated as independent transitions (inductive step of the coupling invariant).',
     },
     'C16': {
-        'technique': 'typed census of channel-map writers, structural shape check of the constructor literals (returned terms), field-wise agreement of the rank-list hand-over, sibling agreement for configured ranks',
+        'technique': 'typed census of channel-map writers, departure funnel (caller census) and deletion-condition equivalence, structural shape check of the constructor literals (returned terms), field-wise agreement of the rank-list hand-over, sibling agreement for configured ranks',
         'level': ('Decides that channels are created only by JOIN and configuration loading and deleted only by '
-                  'remove_user_from_channel, that a user-created channel is exactly {creator as founder+operator, no topic, default '
+                  'remove_user_from_channel (through which every departure goes, and which deletes exactly when the channel became empty and is not preconfigured), that a user-created channel is exactly {creator as founder+operator, no topic, default '
                   'modes, empty lists, not preconfigured}, that configured channels carry topic/modes from their entry with '
                   'preconfigured=true (only there) and that configured ranks are granted on join.'),
-        'note': TRUST + ' Creation/deletion conditions are decided in C07 R7.1 and C06 R6.4; TOML deserialisation is trusted.',
+        'note': TRUST + ' The creation condition is decided in C07 R7.1; TOML deserialisation is trusted.',
     },
     'C15': {
         'technique': 're-key census driven by the typed container classification, guard entailment/equivalence for every effect of the registered NICK branch, value-identity of the moved User, announcement provenance (binding order of the old source)',
@@ -148,10 +148,10 @@ CHECKS = {
         'note': TRUST + ' Consumption of the invitation by JOIN is decided in C07.',
     },
     'C01': {
-        'technique': 'send-site census with receiver/source/payload provenance terms, guard entailment (sender skipped, prefix bit matches rank set), pairwise exclusivity of fan-outs, table agreement',
+        'technique': 'send-site census with receiver/source/payload provenance terms, shape and writer census of the nick!user@host source string, guard entailment (sender skipped, prefix bit matches rank set), pairwise exclusivity of fan-outs, table agreement',
         'level': ('Decides the fan-out shape of PRIVMSG/NOTICE for every input: who can receive (member map / matching rank '
                   'set / addressed nick only), sender skipped, set-typed target loop, at most one copy per receiver per '
-                  'target (violated on the pinned tree for multi-prefix targets; repaired by fix 4200c72), attribution and payload provenance, single '
+                  'target (violated on the pinned tree for multi-prefix targets; repaired by fix 4200c72), attribution and payload provenance, integrity of the source string (built from the current nick/user/host, recomputed by every setter), single '
                   'producer/consumer discipline of user queues, prefix/bit/set/flag table agreement.'),
         'note': TRUST + ' Membership truth of Channel.users is C04\'s structural result; delivery order and sockets are not decided.',
     },
@@ -163,12 +163,12 @@ CHECKS = {
         'note': TRUST + ' Not decided: client auto-replies; parse-level errors for malformed NOTICE.',
     },
     'C03': {
-        'technique': 'guard-entailment over the dispatch (enum-aware truth table), assignment census of `authenticated`, value-implies-condition check, must-reach checks on the failure path',
+        'technique': 'guard-entailment over the dispatch (enum-aware truth table), assignment census of `authenticated`, typestate authenticated => registered, value-implies-condition check, must-reach checks on the failure path',
         'level': ('Decides structurally that only the six listed commands reach a handler on an unauthenticated '
                   'connection, that `authenticated` is written only in authenticate() and only with a value that '
                   'implies CAP ended + NICK + USER + mask match + the required password verified (user password '
                   'before server password), that a wrong/missing password reaches 464 and the quit flag and never '
-                  'add_user, and that pre-registration handlers do not touch shared state.'),
+                  'add_user, that a registration attempt losing its nick does not stay marked registered, and that pre-registration handlers do not touch shared state.'),
         'note': TRUST + ' Assumes argon2 verification is correct. Not decided: TLS/DNS effects on the source string.',
     },
     'C07': {
